@@ -16,7 +16,9 @@ WORK = os.path.join(ROOT, "work")
 SPEC = os.path.join(ROOT, "spec")
 MC = os.path.join(ROOT, "mc")
 TRACE = os.path.join(ROOT, "trace")
-REPO = "/repo"
+# the repository under test; VERIF_REPO lets a background run use a snapshot of it (the registered
+# commands always use /repo itself)
+REPO = os.environ.get("VERIF_REPO", "/repo")
 HARNESS_BIN = os.path.join(WORK, "target", "debug", "run")
 CLI_BIN = os.path.join(WORK, "cli-target", "debug", "cteepbd")
 JAVA_BASE = "-DTLA-Library=%s -Xss1g" % SPEC
@@ -50,7 +52,17 @@ def build(cli=False):
     lock_dst = os.path.join(ROOT, "harness", "Cargo.lock")
     if not os.path.exists(lock_dst) and os.path.exists(lock_src):
         shutil.copy(lock_src, lock_dst)
-    r = subprocess.run(["cargo", "build", "--offline", "--quiet"], cwd=os.path.join(ROOT, "harness"),
+    hdir = os.path.join(ROOT, "harness")
+    if REPO != "/repo":
+        # same harness sources, path dependency redirected to the snapshot
+        alt = os.path.join(WORK, "harness-alt")
+        shutil.rmtree(alt, ignore_errors=True)
+        shutil.copytree(hdir, alt, ignore=shutil.ignore_patterns("target"))
+        ct = open(os.path.join(alt, "Cargo.toml")).read().replace('path = "/repo"', 'path = "%s"' % REPO)
+        open(os.path.join(alt, "Cargo.toml"), "w").write(ct)
+        open(os.path.join(alt, ".cargo", "config.toml"), "w").write('[net]\noffline = true\n[build]\ntarget-dir = "%s"\n' % os.path.join(WORK, "target"))
+        hdir = alt
+    r = subprocess.run(["cargo", "build", "--offline", "--quiet"], cwd=hdir,
                        env=dict(os.environ, CARGO_NET_OFFLINE="true"), capture_output=True, text=True)
     if r.returncode != 0:
         sys.stderr.write(r.stdout + r.stderr)
